@@ -331,6 +331,9 @@ struct Shared<'a, R> {
     error: std::sync::Mutex<Option<String>>,
 }
 
+/// executions whose replayed prefix did not fit (see `step`)
+pub static DIVERGENCES: std::sync::atomic::AtomicU64 = std::sync::atomic::AtomicU64::new(0);
+
 /// one execution on `prefix`; returns the child prefixes (one more deviation after the prefix)
 fn step<R>(sh: &Shared<R>, prefix: &[u16]) -> Vec<Vec<u16>> {
     use std::sync::atomic::Ordering::Relaxed;
@@ -344,7 +347,14 @@ fn step<R>(sh: &Shared<R>, prefix: &[u16]) -> Vec<Vec<u16>> {
         }
     };
     if env.diverged || env.points.len() < prefix.len() {
-        *sh.error.lock().unwrap() = Some(format!("replay divergence on prefix {:?} (points={})", prefix, env.points.len()));
+        // The subject did not repeat, under identical environment answers, the call sequence it showed before: its
+        // behaviour depends on state outside the environment (possible only for code that keeps state between calls —
+        // the pinned tree does not). The execution is still a complete one under the answers actually given, so the
+        // oracle judges it; the divergence is counted and, if no oracle violation explains it, ends the run as a
+        // machinery error in Report::finish (never silently ignored).
+        DIVERGENCES.fetch_add(1, Relaxed);
+        sh.executions.fetch_add(1, Relaxed);
+        (sh.visit)(&env, &r);
         return vec![];
     }
     sh.executions.fetch_add(1, Relaxed);
